@@ -95,7 +95,12 @@ fn main() {
         ctx.finish("model_checking", "replay");
     }
     let quick = ctx.quick();
-    asys::uplinks::run(&ctx, "uplinks-bfs-value", if quick { 7 } else { 8 }, |m| m.contains("lane-kind=value") || m.contains("terminates") || m.contains("one_writer"));
+    asys::uplinks::run(&ctx, "uplinks-bfs-value", if quick { 7 } else { 8 }, |m| {
+        // every law except those that only concern the answer to a sync (C03): a value event that
+        // leaves under another lane's name first shows as a violation of that other lane's law
+        // (and the state is not explored further), while the value lane's subscriber goes stale
+        !(m.contains("law=sync") || m.contains("law=synced")) || m.contains("lane-kind=value")
+    });
     let sc = scripts(quick);
     let modes = [Mode::Eager, Mode::Burst, Mode::SlowRead];
     let cfgs = grid(&sc, &[8, 48, 4096], &[2, 3, 64], &modes, &[0]);
